@@ -383,3 +383,25 @@ def numeric_stream(rng, n):
         out.append("%eval(" + e + ")")
         out.append("%sysevalf(" + e + ")")
     return out
+
+
+def mvar_expr(rng):
+    """a macro variable reference expression: runs of ampersands of any length (leading and inner), name parts,
+    terminating dots - the spellings lex_macro_var_expr / get_macro_resolve_ops_from_amps have to split"""
+    parts = []
+    for k in range(1 + rng.below(4)):
+        parts.append("&" * (1 + rng.below(9)))
+        parts.append(_name(rng, 4) if rng.below(8) else rng.choice(["1", " ", "", "\u044b", "_"]))
+        if rng.below(3) == 0:
+            parts.append("." * (1 + rng.below(2)))
+    return "".join(parts)
+
+
+def mvar_stream(rng, n):
+    ctx = ["{}", "{};", "x={};", "\"{}\"", "\"a{}b\"d", "%let v={};", "%let {}=1;", "%put {};", "%m({})", "%m(a={})", "%eval({}+1)", "%str({})",
+           "%nrstr({})", "%if {} %then a;", "%do i=1 %to {};", "%macro m; {} %mend;", "%sysfunc(f({}))", "data {}; run;", "'{}'", "%m({},{})", "* {};", "%* {};", "/* {} */"]
+    out = []
+    for _ in range(n):
+        c = rng.choice(ctx)
+        out.append(c.replace("{}", mvar_expr(rng), 1).replace("{}", mvar_expr(rng)))
+    return out
